@@ -152,10 +152,19 @@ def scalarCore (st : Style) (o : Opts) (ty : STy) (nullable : Bool) (b : Bounds)
 /-- `parse_root_type` passes `constraints=obj.dict() if self.field_constraints else {}` -/
 def rootCons (o : Opts) (c : Cons) : Cons := if o.fieldConstraints then c else {}
 
-def extraOf : Addl → Extra
-  | .absent => .unset
-  | .allow => .allow
-  | .forbid => .forbid
+/-- how `additionalProperties` is written, as the key of the generated table `extraMap` -/
+def addlLabel : Addl → String
+  | .absent => "absent"
+  | .allow => "true"
+  | .forbid => "false"
+
+/-- `set_additional_properties` + the `Config`/`ConfigDict` of the model class, read from the
+generated table (a real parser run per case, see vlib/translate/constraints.py) -/
+def extraOf (st : Style) (a : Addl) : Extra :=
+  match (extraMap st).lookup (addlLabel a) with
+  | some "forbid" => .forbid
+  | some "allow" => .allow
+  | _ => .unset
 
 /-- `get_object_field`: `constraints=field.dict() if self.is_constraints_field(field) else None`;
 `is_constraints_field` = array, or (`field_constraints` and a plain scalar) -/
@@ -197,7 +206,7 @@ def tr (st : Style) (o : Opts) : Ctx → Schema → Ty
     | .item phc =>
       if hc && (phc || o.fieldConstraints) then .root (rootCons o (consOfItems (fieldKw st) mn mx)) lst
       else lst
-  | _, .object props req addl => .model (trProps st o req props) (extraOf addl)
+  | _, .object props req addl => .model (trProps st o req props) (extraOf st addl)
   | _, .dict value => .dict (tr st o .plain value)
   | _, .ref n => .ref n
   | _, .anyOf alts => .union (trAlts st o alts)
